@@ -244,6 +244,63 @@ pub fn mutations(s: &State) -> Vec<State> {
         push(format!("unsupported-item:{o}"), s.entry, s.attr.clone(), (*o).to_string());
     }
     if let Ok(item) = syn::parse_str::<syn::Item>(&s.item) {
+        // renaming to raw identifiers / names the expansion itself uses
+        for name in ["r#type", "r#fn", "f", "state", "H", "other", "__x"] {
+            let id = match syn::parse_str::<syn::Ident>(name) {
+                Ok(i) => i,
+                Err(_) => continue,
+            };
+            match &item {
+                syn::Item::Struct(st) => {
+                    let mut x = st.clone();
+                    x.ident = id.clone();
+                    push(format!("rename-type-{name}"), s.entry, s.attr.clone(), x.to_token_stream().to_string());
+                    for i in 0..st.fields.len() {
+                        let mut x = st.clone();
+                        if let Some(f) = x.fields.iter_mut().nth(i) {
+                            if f.ident.is_some() {
+                                f.ident = Some(id.clone());
+                                push(format!("rename-field{i}-{name}"), s.entry, s.attr.clone(), x.to_token_stream().to_string());
+                            }
+                        }
+                    }
+                    if let Some(syn::GenericParam::Type(_)) = st.generics.params.first() {
+                        let mut x = st.clone();
+                        if let Some(syn::GenericParam::Type(tp)) = x.generics.params.first_mut() {
+                            tp.ident = id.clone();
+                        }
+                        push(format!("rename-param-{name}"), s.entry, s.attr.clone(), x.to_token_stream().to_string());
+                    }
+                }
+                syn::Item::Enum(en) => {
+                    let mut x = en.clone();
+                    x.ident = id.clone();
+                    push(format!("rename-type-{name}"), s.entry, s.attr.clone(), x.to_token_stream().to_string());
+                    for vi in 0..en.variants.len() {
+                        let mut x = en.clone();
+                        x.variants[vi].ident = id.clone();
+                        push(format!("rename-variant{vi}-{name}"), s.entry, s.attr.clone(), x.to_token_stream().to_string());
+                        for i in 0..en.variants[vi].fields.len() {
+                            let mut x = en.clone();
+                            if let Some(f) = x.variants[vi].fields.iter_mut().nth(i) {
+                                if f.ident.is_some() {
+                                    f.ident = Some(id.clone());
+                                    push(format!("rename-variant{vi}-field{i}-{name}"), s.entry, s.attr.clone(), x.to_token_stream().to_string());
+                                }
+                            }
+                        }
+                    }
+                    if let Some(syn::GenericParam::Type(_)) = en.generics.params.first() {
+                        let mut x = en.clone();
+                        if let Some(syn::GenericParam::Type(tp)) = x.generics.params.first_mut() {
+                            tp.ident = id.clone();
+                        }
+                        push(format!("rename-param-{name}"), s.entry, s.attr.clone(), x.to_token_stream().to_string());
+                    }
+                }
+                _ => {}
+            }
+        }
         match item {
             syn::Item::Struct(st) => {
                 for (name, a) in attr_site_mutations(&st.attrs) {
